@@ -42,3 +42,16 @@ package client
 //@   requires c != nil && c.fetcher != nil
 //@   modifies n_gd, gd_paths
 //@   ensures[C18.pl,C19.t] n_gd == old(n_gd) + 1 && gd_paths[old(n_gd)] == "/tile/" ++ fmt_d(c.height) ++ "/data/" ++ pathAcc(offset, fmt_03d(offset % 1000)) ++ ".p/" ++ fmt_d(count)
+
+// What the log's server answers cannot make the fetcher or the checkpoint reader panic (C19).
+//@ func (*HTTPFetcher).GetData
+//@   returns (b, err)
+//@   requires f != nil && f.c != nil
+//@   modifies heap
+//@   ensures[C19.s] err != nil ==> b == nil
+
+//@ func (*SumDBClient).LatestCheckpoint
+//@   returns (cp, err)
+//@   requires c != nil && c.fetcher != nil
+//@   modifies n_gd, gd_paths
+//@   ensures[C19.s] (err != nil ==> cp == nil) && (err == nil ==> cp != nil)
